@@ -4,4 +4,5 @@ CONSTANTS
   Known <- KnownC04
 INVARIANT GenInv
 INVARIANT Laws
+INVARIANT LawOneWordNames
 CHECK_DEADLOCK FALSE
